@@ -165,6 +165,65 @@ func main() {
 		if t2, s2, g2 := leaves.VerifBurndownMeta(r2); t2 != tickNs || s2 != samp || g2 != gran {
 			hv.Fail("burndown-roundtrip", full(), fmt.Sprintf("tick size / sampling / granularity read back as %d/%d/%d", t2, s2, g2))
 		}
+		// text format: every matrix is printed with its number of rows and columns, history cells clamped at zero
+		var tbuf bytes.Buffer
+		if err := b.Serialize(res, false, &tbuf); err != nil {
+			hv.Fail("burndown-text", full(), "text serialization failed: "+err.Error())
+		} else {
+			lines := strings.Split(tbuf.String(), "\n")
+			block := func(header string) ([][]int64, bool) {
+				for i, l := range lines {
+					if strings.TrimSpace(l) == header {
+						var rows [][]int64
+						for _, r := range lines[i+1:] {
+							f := strings.Fields(r)
+							if len(f) == 0 {
+								break
+							}
+							var row []int64
+							ok := true
+							for _, x := range f {
+								var v int64
+								if _, err := fmt.Sscan(x, &v); err != nil {
+									ok = false
+									break
+								}
+								row = append(row, v)
+							}
+							if !ok {
+								break
+							}
+							rows = append(rows, row)
+						}
+						return rows, true
+					}
+				}
+				return nil, false
+			}
+			checkM := func(what, header string, want [][]int64) {
+				got, found := block(header)
+				if !found {
+					hv.Fail("burndown-text", full(), fmt.Sprintf("no %s block (%q) in the text output", what, header))
+					return
+				}
+				if fmt.Sprint(got) != fmt.Sprint(want) {
+					hv.Fail("burndown-text", full(), fmt.Sprintf("%s is printed as %v (%d rows), the result holds %v (%d rows)", what, got, len(got), want, len(want)))
+				}
+			}
+			checkM("the project matrix", "\"project\": |-", clamp(m))
+			emptyName := false
+			for _, d := range dict {
+				if d == "" {
+					emptyName = true // PrintMatrix prints a matrix without a name without a header: it joins the block before it
+				}
+			}
+			for i, d := range dict {
+				if !emptyName {
+					checkM("the matrix of developer "+d, "\""+d+"\": |-", clamp(ph[i]))
+				}
+			}
+			checkM("the interaction matrix", "people_interaction: |-", pm)
+		}
 		if fmt.Sprint(r2.PeopleMatrix) != fmt.Sprint(pm) {
 			hv.Fail("burndown-roundtrip", fmt.Sprintf(`{"people_matrix":%q}`, fmt.Sprint(pm)), fmt.Sprintf("interaction matrix reads back as %v", r2.PeopleMatrix))
 		}
